@@ -141,7 +141,11 @@ func c09Property(t *testing.T, rec *stats.Recorder, opts gen.ChaoticOpts, quick,
 	progs := gen.Chaotic(opts)
 	docs := c09Docs()
 	rec.Matcher("F-E10", padHugeWidth)
+	var hg hangGuard
 	rapidRun(t, rec, quick, thorough, func(rt *rapid.T) {
+		if hg.tripped() {
+			return
+		}
 		prog := ast.Normalize(progs.Draw(rt, "prog"))
 		doc := docs.Draw(rt, "doc")
 		c := evalCase{Text: ast.Print(prog), Input: val.JSON(doc)}
@@ -153,9 +157,7 @@ func c09Property(t *testing.T, rec *stats.Recorder, opts gen.ChaoticOpts, quick,
 		if res.Kind == "inconclusive" {
 			rec.Inconclusive()
 		}
-		if msg != "" && rec.Fail(c, msg) {
-			rt.Fatalf("%s\n  expr: %s\n  input: %s", msg, c.Text, c.Input)
-		}
+		hg.fail(rt, rec, c, msg, fmt.Sprintf("\n  expr: %s\n  input: %s", c.Text, c.Input))
 	})
 	c09Floors(rec)
 }
@@ -244,9 +246,10 @@ func TestC09_Corpus(t *testing.T) {
 	}
 	rec.Exhaustive("corpus_x_bundled_documents", n)
 	gdocs := c09Docs()
+	var hg hangGuard
 	rapidRun(t, rec, 8000, 100000, func(rt *rapid.T) {
 		e := rapid.SampledFrom(cp).Draw(rt, "expr")
-		if !safeToEvalCorpus(e) {
+		if !safeToEvalCorpus(e) || hg.tripped() {
 			return
 		}
 		c := evalCase{Text: e, Input: val.JSON(gdocs.Draw(rt, "doc"))}
@@ -260,9 +263,7 @@ func TestC09_Corpus(t *testing.T) {
 			return map[string]interface{}{"expr": c.Text, "input": c.Input, "outcome": res.Kind + " " + res.Err}
 		})
 		rec.Class("outcome_" + res.Kind)
-		if msg != "" && rec.Fail(c, msg) {
-			rt.Fatalf("%s\n  expr: %s\n  input: %s", msg, c.Text, c.Input)
-		}
+		hg.fail(rt, rec, c, msg, fmt.Sprintf("\n  expr: %s\n  input: %s", c.Text, c.Input))
 	})
 }
 
